@@ -327,6 +327,44 @@ fn cp437(acc: &mut Acc) {
     let _ = cp437_char(0);
 }
 
+/// all three-byte strings over the upper half of the code page (quick) / over all bytes (thorough)
+fn cp437_triples(lo: u8, acc: &mut Acc) {
+    for a in lo..=255u8 {
+        for b in lo..=255u8 {
+            for c in lo..=255u8 {
+                if c == 0 {
+                    continue;
+                }
+                let bytes = [a, b, c];
+                acc.count("cases", 1);
+                acc.count("calls", 2);
+                let want: String = bytes.iter().map(|x| cp437_char(*x)).collect();
+                let r = guarded(|| {
+                    let s = <Dflt as Encoding<String>>::decode(&bytes).map(|(s, r)| (s, r.len()));
+                    let back = s.as_ref().ok().map(|(s, _)| <Dflt as Encoding<String>>::encode(s));
+                    (s, back)
+                });
+                match r {
+                    Ok((Ok((s, 0)), Some(back))) if s == want && back == bytes => {}
+                    other => acc.violation(viol(
+                        format!("c17/cp437/{}", hex(&bytes)),
+                        format!("CP437 {}: expected text {want:?} and the same bytes back, got {other:?}", hex(&bytes)),
+                        3,
+                    )),
+                }
+            }
+        }
+    }
+}
+
+fn cp437_triples_high(acc: &mut Acc) {
+    cp437_triples(0x80, acc)
+}
+
+fn cp437_triples_all(acc: &mut Acc) {
+    cp437_triples(0x00, acc)
+}
+
 fn hex_case(bytes: &[u8], acc: &mut Acc) {
     acc.count("cases", 1);
     acc.count("calls", 2);
@@ -393,7 +431,9 @@ fn receipts(acc: &mut Acc) {
 }
 
 pub fn run(run: &RunInfo) -> Summary {
+    let triples: fn(&mut Acc) = if run.thorough() { cp437_triples_all } else { cp437_triples_high };
     let jobs: Vec<(&str, fn(&mut Acc))> = vec![
+        ("c17/cp437/triples", triples),
         ("c17/u8", ints_u8),
         ("c17/u16", ints_u16),
         ("c17/u32", ints_u32),
@@ -430,7 +470,7 @@ pub fn run(run: &RunInfo) -> Summary {
         transitions: acc.get("calls"),
         traces_validated: cases,
         distinct_nontrivial: acc.set_len("int_values") + acc.get("tags_representable") + acc.set_len("cp437_chars") + acc.get("bcd_rejected"),
-        rule: "all u8/u16 values and a defined finite set for u32/u64/usize (digit and bit boundaries, 9 mixed patterns per digit count, all values with exactly two non-zero digits from {1,9}, the 300 values below the maximum) x {LE, BE, BCD}; all 65,536 tags x {BigEndian, Default}; every BCD string of length 0..=5 over nibbles {0,1,9} with optional trailing F and every spelling of max-150..max+1200 for each integer width, decoded as all five integer types; all 256 CP437 bytes in every position of strings of length 1..3; all hex strings of <=2 bytes; receipt numbers 0..=9999 and FFFF. distinct_nontrivial = distinct integer values + representable tags + distinct decoded texts + rejected BCD strings".into(),
+        rule: "all u8/u16 values and a defined finite set for u32/u64/usize (digit and bit boundaries, 9 mixed patterns per digit count, all values with exactly two non-zero digits from {1,9}, the 300 values below the maximum) x {LE, BE, BCD}; all 65,536 tags x {BigEndian, Default}; every BCD string of length 0..=5 over nibbles {0,1,9} with optional trailing F and every spelling of max-150..max+1200 for each integer width, decoded as all five integer types; all 256 CP437 bytes in every position of strings of length 1..3 and all three-byte strings over the upper half of the code page (thorough: all 16.7 M three-byte strings); all hex strings of <=2 bytes; receipt numbers 0..=9999 and FFFF. distinct_nontrivial = distinct integer values + representable tags + distinct decoded texts + rejected BCD strings".into(),
         exhaustive: true,
         required_witnesses: vec![
             "BCD digits beyond an integer's range were rejected".into(),
